@@ -3,14 +3,15 @@
 # Applies a seeded change to a scratch copy of /repo (never to /repo itself), runs the named checks against
 # that copy and removes it. Prints one line per check: CAUGHT / MISSED.
 set -u
+here=$(cd "$(dirname "$0")/.." && pwd)
 patch=$(readlink -f "$1"); shift
 d=$(mktemp -d /tmp/mut-XXXXXX)
 rsync -a --exclude .git /repo/ "$d/"
 if ! (cd "$d" && patch -p1 -s < "$patch"); then echo "PATCH-FAILED $patch"; rm -rf "$d"; exit 3; fi
-. /verif/scripts/env.sh
+. "$here/scripts/env.sh"
 if ! (cd "$d" && go build ./... ) ; then echo "DOES-NOT-BUILD $patch"; rm -rf "$d"; exit 3; fi
 for c in "$@"; do
-  out=$(VERIF_REPO=$d timeout 3000 /verif/bin/vcheck "$c" --tier "${TIER:-quick}" 2>&1); rc=$?
+  out=$(VERIF_DIR=$here VERIF_REPO=$d timeout 3000 "$here/bin/vcheck" "$c" --tier "${TIER:-quick}" 2>&1); rc=$?
   nv=$(echo "$out" | grep -c '^VIOLATION')
   if [ $rc -eq 1 ] && [ "$nv" -gt 0 ]; then echo "CAUGHT $c rc=$rc violations=$nv :: $(echo "$out" | grep -A1 '^VIOLATION' | sed -n 2p | cut -c1-300)";
   else echo "MISSED $c rc=$rc :: $(echo "$out" | tail -1 | cut -c1-300)"; fi
